@@ -127,8 +127,56 @@ func (c *ctx) ocUnmarshalSequences(count int) {
 	}
 }
 
+// ocClientResults: several GetOutputConfiguration calls on one client; every result is looked at after the LAST call
+// (a result belongs to the caller: a later call must not change it).
+func (c *ctx) ocClientResults(count int) {
+	for i := 0; i < count; i++ {
+		k := 2 + c.rng.Intn(3)
+		var payloads [][]byte
+		var stream []byte
+		n := 1 + c.rng.Intn(12)
+		for j := 0; j < k; j++ {
+			switch c.rng.Intn(4) {
+			case 0: // same length
+			case 1:
+				n = c.rng.Intn(n + 1) // shorter
+			case 2:
+				n += c.rng.Intn(4) // longer
+			default:
+				n = c.rng.Intn(20)
+			}
+			p := c.payload(4 * n)
+			payloads = append(payloads, p)
+			if c.rng.Intn(3) == 0 {
+				stream = append(stream, c.smallFrame()...)
+			}
+			stream = append(stream, xsens.NewMessage(xsens.MessageIdentifierReqOutputConfigurationAck, p)...)
+		}
+		scheds := c.schedules(len(stream), false)
+		port := &scriptedPort{r: &chunkReader{data: stream, sched: scheds[c.rng.Intn(len(scheds))], final: io.EOF}}
+		cl := xsens.NewClient(port)
+		results := make([]xsens.OutputConfiguration, k)
+		oks := make([]bool, k)
+		for j := 0; j < k; j++ {
+			protect(func() {
+				r, err := cl.GetOutputConfiguration(context.Background())
+				results[j], oks[j] = r, err == nil
+			})
+		}
+		for j := 0; j < k; j++ {
+			r := "RErr"
+			if oks[j] {
+				r = "(ROk " + settingsTerm(results[j]) + ")"
+			}
+			c.emit("ocunm", tup(settingsTerm(nil), nlist(payloads[j]), r))
+			c.count("client-results-after-later-calls")
+		}
+	}
+}
+
 func init() {
 	props["C13"] = func(c *ctx) {
+		c.ocClientResults(c.pick(120, 1500))
 		// prior destination states: nil, shorter, longer, spare capacity, junk contents, aliasing an earlier result
 		mk := c.mkConf
 		c.ocUnmarshalSequences(c.pick(300, 3000))
